@@ -32,7 +32,11 @@ class OpenPath:
         for k in (ENTRY, IO_OPEN, OPEN_IMAGE, READ_CACHE, CREATE_CACHE, LOCAL_LOC, REMOTE_LOC):
             if k not in self.g.funcs:
                 raise AnalysisError(f"anchor vanished: function {k}")
-        self.reach = self.g.reachable([ENTRY])
+        # what runs while *opening*: pixel loads (the lazy backend's __getitem__) happen later and are not part of it;
+        # they are only reachable here through the by-name over-approximation of subscripts
+        self.load_time = {"ceos_alos2.array:Array.__getitem__", "ceos_alos2.xarray:LazilyIndexedWrapper.__getitem__",
+                          "ceos_alos2.xarray:LazilyIndexedWrapper._raw_indexing_method"}
+        self.reach = self.g.reachable([ENTRY], stop=self.load_time)
 
     def fi(self, key):
         return self.g.funcs[key]
